@@ -12,13 +12,15 @@ Definition err_code (e : range_err) : Z :=
   | EEndGtMax => 5 | EStartNotMin => 6 | EEndNotMin => 7
   end.
 
-(** What the harness observed after a request: status, then GET (ids, zone
-    name, the days' number texts), [Contains] of the stored schedule at some
-    instants given as (t, offset of the reported zone at t, verdict), and,
-    when the stored week is all-full or all-empty, the service names
-    ApplyBlockedServices produced. *)
+(** What the harness observed after a request: status, then GET: ids and the
+    schedule part (zone name, the days' number texts; [None] = textually
+    identical to the schedule part of the previous observation), [Contains]
+    of the stored schedule at the history's instants, each given as (offset of
+    the reported zone at that instant, verdict), and, when the stored week is
+    all-full or all-empty, the service names ApplyBlockedServices produced. *)
+Definition sched_obs := (bytes * list text_day)%type.
 Definition http_obs :=
-  (Z * list bytes * bytes * list text_day * list (Z * Z * bool) * option (list bytes))%type.
+  (Z * list bytes * option sched_obs * list (Z * bool) * option (list bytes))%type.
 
 Inductive case :=
   (* instant (ns), zone offset at that instant (s), ranges (ns), observed Contains *)
@@ -50,7 +52,7 @@ Inductive case :=
      name, ranges in ns), what was observed before the first request and
      after every request *)
   | CHttp (known init_ids : list bytes) (init_zone : bytes) (init_days : list (Z * Z))
-      (obs0 : http_obs) (steps : list (op * http_obs)).
+      (instants : list Z) (obs0 : http_obs) (steps : list (op * http_obs)).
 
 Definition eqb_zz (a b : Z * Z) := (fst a =? fst b) && (snd a =? snd b).
 
@@ -81,38 +83,53 @@ Definition doc_ok (r : text_err + weekly) (print : Z -> bytes)
   | inl _ => true
   end.
 
-Definition http_obs_ok (known : list bytes) (st : Z) (s : bsvc) (o : http_obs) : bool :=
-  let '(ost, oids, ozone, odays, probes, app) := o in
+Definition probes_ok (w : weekly) (instants : list Z) (probes : list (Z * bool)) : bool :=
+  (length instants =? length probes)%nat &&
+  forallb (fun p : Z * (Z * bool) =>
+             let '(t, (o, b)) := p in Bool.eqb (contains w (fun _ => o) t) b)
+          (combine instants probes).
+
+Definition http_obs_ok (known : list bytes) (instants : list Z) (st : Z) (s : bsvc)
+    (prev : option sched_obs) (o : http_obs) : bool * option sched_obs :=
+  let '(ost, oids, osch, probes, app) := o in
+  let cur := match osch with Some x => Some x | None => prev end in
   let '(ids, zone, days) := get s in
   let w := sc_days (bs_sched s) in
-  (st =? ost) && eqb_list eqb_bytes ids oids && eqb_bytes zone ozone &&
-  eqb_list (eqb_option eqb_bb) days odays &&
-  forallb (fun p : Z * Z * bool =>
-             let '(t, o, b) := p in Bool.eqb (contains w (fun _ => o) t) b) probes &&
-  match app with
-  | None => true
-  | Some l => match week_const w with
-              | Some paused => eqb_list eqb_bytes (apply known s paused) l
-              | None => false
-              end
+  match cur with
+  | None => (false, None)
+  | Some (ozone, odays) =>
+      ((st =? ost) && eqb_list eqb_bytes ids oids && eqb_bytes zone ozone &&
+       eqb_list (eqb_option eqb_bb) days odays &&
+       probes_ok w instants probes &&
+       match app with
+       | None => true
+       | Some l => match week_const w with
+                   | Some paused => eqb_list eqb_bytes (apply known s paused) l
+                   | None => false
+                   end
+       end, cur)
   end.
 
-Fixpoint http_run_ok (known : list bytes) (s : bsvc) (steps : list (op * http_obs)) : bool :=
+Fixpoint http_run_ok (known : list bytes) (instants : list Z) (s : bsvc) (prev : option sched_obs)
+    (steps : list (op * http_obs)) : bool :=
   match steps with
   | [] => true
   | (o, ob) :: steps =>
       let (st, s') := step known o s in
-      http_obs_ok known st s' ob && http_run_ok known s' steps
+      let (ok, cur) := http_obs_ok known instants st s' prev ob in
+      ok && http_run_ok known instants s' cur steps
   end.
 
 (** Index of the first request whose observation differs (0 = the initial
     observation), or -1. *)
-Fixpoint http_first_bad (known : list bytes) (s : bsvc) (steps : list (op * http_obs)) (i : Z) : Z :=
+Fixpoint http_first_bad (known : list bytes) (instants : list Z) (s : bsvc) (prev : option sched_obs)
+    (steps : list (op * http_obs)) (i : Z) : Z :=
   match steps with
   | [] => -1
   | (o, ob) :: steps =>
       let (st, s') := step known o s in
-      if http_obs_ok known st s' ob then http_first_bad known s' steps (i + 1) else i
+      let (ok, cur) := http_obs_ok known instants st s' prev ob in
+      if ok then http_first_bad known instants s' cur steps (i + 1) else i
   end.
 
 Fixpoint http_statuses (known : list bytes) (s : bsvc) (steps : list (op * http_obs)) : list (Z * Z) :=
@@ -151,9 +168,10 @@ Definition case_ok (c : case) : bool :=
   | CMsPrint d obs => eqb_bytes (print_ms_text d) obs
   | CYamlText fs e days back => doc_ok (unmarshal_fields parse_yaml_dur 7 fs) tu_string e days back
   | CJsonText fs e days back => doc_ok (unmarshal_fields parse_json_dur 7 fs) print_ms_text e days back
-  | CHttp known ids zone days o0 steps =>
+  | CHttp known ids zone days instants o0 steps =>
       let s := http_init ids zone days in
-      http_obs_ok known st_ok s o0 && http_run_ok known s steps
+      let (ok, cur) := http_obs_ok known instants st_ok s None o0 in
+      ok && http_run_ok known instants s cur steps
   end.
 
 Definition mismatches := Base.Run.mismatches case_ok.
@@ -181,8 +199,9 @@ Definition explain (c : case) :=
   | CJsonText fs _ _ _ =>
       let r := unmarshal_fields parse_json_dur 7 fs in
       (text_res_code r, match r with inr w => marshal_yaml w | _ => [] end)
-  | CHttp known ids zone days o0 steps =>
+  | CHttp known ids zone days instants o0 steps =>
       let s := http_init ids zone days in
-      ((if http_obs_ok known st_ok s o0 then http_first_bad known s steps 1 else 0),
+      let (ok, cur) := http_obs_ok known instants st_ok s None o0 in
+      ((if ok then http_first_bad known instants s cur steps 1 else 0),
        http_statuses known s steps)
   end.
